@@ -615,7 +615,7 @@ func CompareSelect(res *Result, n *proto.NStmt, cols []string, act [][]Val) *Dif
 			lo = len(exp)
 		}
 	}
-	if n.HasLimit && lo+n.Limit < hi {
+	if n.HasLimit && n.Limit < hi-lo { // no lo+limit: the sum may not fit
 		hi = lo + n.Limit
 	}
 	window := exp[lo:hi]
